@@ -49,6 +49,119 @@ def map_iteration_sites(facts):
     return out
 
 
+
+PUSH = r"Vec::<T, A>::push$"
+
+
+def acc_info(b):
+    """The vector of (name, value) pairs of canonicalize_query_to_string, in either of two sibling idioms:
+    form 'loop': a Vec pushed inside the loop over the map; form 'collect': an iterator pipeline over the map
+    (filter / flat_map(values.iter().map(..))) collected into a Vec."""
+    accs = {}
+    for bi, t in b.calls(PUSH):
+        if b.in_cycle(bi):
+            for pl in b.pointees()[op_local(t["args"][0])]:
+                accs.setdefault(pl, []).append((bi, t))
+    if len(accs) == 1:
+        acc, pushes = list(accs.items())[0]
+        return {"form": "loop", "acc": acc, "pushes": pushes}
+    if not accs:
+        cols = []
+        for bi, t in b.calls(r"Iterator::collect$"):
+            src, stages = pipeline_of(b, t["args"][0])
+            if src and src[0] == "def" and src[1]["kind"] == "call" and re.search(MAP_ITER, src[1]["term"]["callee"]):
+                cols.append((bi, t, src, stages))
+        if len(cols) == 1:
+            bi, t, src, stages = cols[0]
+            return {"form": "collect", "acc": t["dest"]["local"], "collect": (bi, t), "src": src, "stages": [x for x in stages if x[0] != "into_iter"]}
+    raise AnchorMissing("single accumulator vector in canonicalize_query_to_string (found %d)" % len(accs))
+
+
+def collect_shape(b, info):
+    """Shape of the collect-form pipeline: returns (problems, facts). Recognised: map.iter() [.filter(F)] .flat_map(G) [.filter(F)]
+    .collect() with G = |(name, values)| values.iter().map(H), H = |value| (.., ..)."""
+    probs = []
+    out = {"filters": [], "tuple": None}
+    names = [x[0] for x in info["stages"]]
+    if sorted(n for n in names if n != "filter") != ["flat_map"]:
+        return ["pipeline stages %s: idiom not recognised (expected filter / flat_map)" % names], out
+    seen_fm = False
+    for n, blk, t, clo in info["stages"]:
+        if clo is None:
+            return ["stage `%s` takes something other than a closure literal" % n], out
+        if n == "filter":
+            out["filters"].append((blk, clo[0], "pair" if seen_fm else "entry"))
+        else:
+            seen_fm = True
+            G = clo[0]
+            src, st2 = pipeline_of(G, {"move": {"local": 0, "proj": []}})
+            st2 = [x for x in st2 if x[0] != "into_iter"]
+            if not (src and src[0] == "def" and src[1]["kind"] == "call" and re.search(r"slice::<impl \[T\]>::iter$", src[1]["term"]["callee"])):
+                return ["flat_map closure does not iterate the value list with .iter()"], out
+            if {fs[:1] for l, fs in G.slice_op(src[1]["term"]["args"][0]).fieldreads if l == 2} != {("1",)}:
+                return ["flat_map closure iterates something other than the entry's value list"], out
+            if [x[0] for x in st2] != ["map"] or st2[0][3] is None:
+                return ["inner pipeline %s: expected exactly values.iter().map(closure) (an inner filter/take would drop values)" % [x[0] for x in st2]], out
+            H, hst = st2[0][3]
+            caps = [G.origin_def(o) for o in hst["rv"]["ops"]]
+            name_caps = {i for i, od in enumerate(caps) if od and od[0] == "place" and od[1]["local"] == 2 and [e for e in od[1]["proj"] if e != "deref"][:1] and [e for e in od[1]["proj"] if e != "deref"][0].get("idx") == 0}
+            od = H.origin_def({"move": {"local": 0, "proj": []}})
+            if not (od and od[0] == "def" and od[1]["kind"] == "assign" and od[1]["stmt"]["rv"].get("tuple")):
+                out["tuple"] = (H, None, name_caps)
+            else:
+                out["tuple"] = (H, od[1]["stmt"], name_caps)
+    return probs, out
+
+
+def render_loop_problems(b, acc):
+    """Sibling rendering idiom `for (i, (name, value)) in pairs.into_iter().enumerate() { if i > 0 { out.push('&') } out.push_str(name);
+    out.push('='); out.push_str(value) }`: returns the list of deviations."""
+    pr = []
+    amp = [(bi, t) for bi, t in b.calls(r"^std::string::String::push$") if const_value(op_const(t["args"][1]) or {}) == ord("&")]
+    eq = [(bi, t) for bi, t in b.calls(r"^std::string::String::push$") if const_value(op_const(t["args"][1]) or {}) == ord("=")]
+    ps = b.calls(r"^std::string::String::push_str$")
+    nx = [x for x in b.calls(r"Iterator::next$") if "Enumerate<std::vec::IntoIter<" in x[1].get("resolved_full", "")]
+    if len(amp) != 1 or len(eq) != 1 or len(ps) != 2 or len(nx) != 1:
+        return ["rendering loop not recognised: %d '&' pushes, %d '=' pushes, %d push_str, %d enumerate().next()" % (len(amp), len(eq), len(ps), len(nx))]
+    if acc not in b.slice_op(nx[0][1]["args"][0]).locals:
+        pr.append("the rendering loop does not run over the sorted vector")
+    st = b.term(nx[0][1]["target"])
+    some = [bb for v, bb in st["targets"] if v == 1] if st["k"] == "switch" else []
+    if not some:
+        return ["rendering loop's Some edge not found"]
+    nl = nx[0][1]["dest"]["local"]
+
+    def part(o):
+        od = b.origin_def(o)
+        if od and od[0] == "place" and od[1]["local"] == nl:
+            return tuple(str(e.get("idx")) for e in od[1]["proj"] if isinstance(e, dict) and "field" in e)
+        if od and od[0] == "def" and od[1]["kind"] == "assign" and od[1]["stmt"]["rv"]["k"] == "use":
+            p_ = op_place(od[1]["stmt"]["rv"]["op"])
+            if p_ and p_["local"] == nl:
+                return tuple(str(e.get("idx")) for e in p_["proj"] if isinstance(e, dict) and "field" in e)
+        return None
+    # '&' exactly when index > 0
+    gc = [(a, c, tr) for a, s_, c, tr in guard_conditions(b, amp[0][0]) if c["kind"] != "discr"]
+    okamp = False
+    if len(gc) == 1 and gc[0][1]["kind"] == "binop":
+        c, tr = gc[0][1], gc[0][2]
+        lhs, rhs = part(c["l"]), op_const(c["r"])
+        if lhs == ("0", "0") and rhs is not None and const_value(rhs) == 0 and ((c["op"] in ("Gt", "Ne") and tr is True) or (c["op"] in ("Eq", "Le") and tr is False)):
+            okamp = True
+    if not okamp:
+        pr.append("the '&' separator is not pushed exactly when the pair's index is > 0")
+    # name '=' value unconditionally, in this order
+    seq = [ps[0][0], eq[0][0], ps[1][0]] if b.dominates(ps[0][0], ps[1][0]) else [ps[1][0], eq[0][0], ps[0][0]]
+    first, second = (ps[0], ps[1]) if b.dominates(ps[0][0], ps[1][0]) else (ps[1], ps[0])
+    if not (b.dominates(seq[0], seq[1]) and b.dominates(seq[1], seq[2]) and all(b.postdominates(x, some[0]) for x in seq)):
+        pr.append("name, '=', value are not appended unconditionally in this order for every pair")
+    if b.reachable(seq[0], amp[0][0]) and not b.reachable(amp[0][0], seq[0]):
+        pr.append("'&' is appended after the pair, not before it")
+    if part(first[1]["args"][1]) != ("0", "1", "0") or part(second[1]["args"][1]) != ("0", "1", "1"):
+        pr.append("the appended strings are not the pair's (name, value) in that order")
+    return pr
+
+
 @M.rule("C10-R1", "no hash-order leak: every HashMap iteration is reviewed; the canonical query is sorted before it is rendered")
 def r1(ctx):
     sites = map_iteration_sites(ctx.facts)
@@ -80,18 +193,21 @@ def r1(ctx):
     it = [x for x in b.calls(MAP_ITER)]
     if not it:
         raise AnchorMissing("map iteration in canonicalize_query_to_string")
-    # accumulator: Vec pushed inside the loop
-    accs = {}
-    for bi, t in b.calls(r"Vec::<T, A>::push$"):
-        if b.in_cycle(bi):
-            for pl in b.pointees()[op_local(t["args"][0])]:
-                accs.setdefault(pl, []).append((bi, t))
-    if len(accs) != 1:
-        raise AnchorMissing("single accumulator vector in canonicalize_query_to_string (found %d)" % len(accs))
-    acc, pushes = list(accs.items())[0]
+    info = acc_info(b)
+    acc = info["acc"]
     sorts = [d for d in b.defs().get(acc, []) if d["kind"] == "mutcall" and re.search(r"slice::<impl \[T\]>::sort(_unstable)?(_by|_by_key|_by_cached_key)?$", d["term"]["callee"])]
     rets = b.return_blocks()
-    good = [d for d in sorts if all(b.dominates(d["block"], r) for r in rets) and not any(b.reachable(d["block"], pb) for pb, _ in pushes)]
+    if info["form"] == "loop":
+        pushes = info["pushes"]
+        good = [d for d in sorts if all(b.dominates(d["block"], r) for r in rets) and not any(b.reachable(d["block"], pb) for pb, _ in pushes)]
+    else:
+        cb = info["collect"][0]
+        good = [d for d in sorts if all(b.dominates(d["block"], r) for r in rets) and b.dominates(cb, d["block"]) and not b.reachable(d["block"], cb)]
+        # nothing else fills the vector after it was sorted
+        later = [d for d in b.defs().get(acc, []) if d["kind"] == "mutcall" and d not in sorts and any(b.reachable(g["block"], d["block"]) for g in good)
+                 and not re.search(r"DerefMut::deref_mut$|IntoIterator::into_iter$|Vec::<T, A>::(iter|len|is_empty)$", d["term"]["callee"])]
+        if later:
+            good = []
     if not good:
         yield VIOL("C10-R1", "canonicalize_query_to_string/not-sorted", "the collected parameters are not sorted after the last push on every path to the return (hash order reaches the canonical query)", where=loc(b.j["span"]))
         return
@@ -109,7 +225,15 @@ def r1(ctx):
     else:
         yield PASS("C10-R1", "canonicalize_query_to_string/result-source", "result derives from the map only through the sorted accumulator; joined with '&'", [])
     j = rs.find_calls(r"slice::<impl \[T\]>::join$")
-    if not j or const_str_of(b, j[0][1]["args"][1])[0] != "&":
+    # sibling rendering idiom: a loop appending to a String with char pushes '&' (between pairs) and '=' (inside one)
+    chars = sorted({const_value(op_const(t_["args"][1]) or {}) for _, t_ in b.calls(r"^std::string::String::push$") if op_const(t_["args"][1])})
+    if not j and chars == [ord("&"), ord("=")] and b.calls(r"^std::string::String::push_str$"):
+        pr = render_loop_problems(b, acc)
+        if pr:
+            yield VIOL("C10-R1", "canonicalize_query_to_string/render-loop", "; ".join(pr), where=loc(b.j["span"]))
+        else:
+            yield PASS("C10-R1", "canonicalize_query_to_string/render-loop", "loop rendering: ['&' if index > 0] name '=' value for every sorted pair", [])
+    elif not j or const_str_of(b, j[0][1]["args"][1])[0] != "&":
         yield VIOL("C10-R1", "canonicalize_query_to_string/join", "pairs are not joined with '&'", where=loc(b.j["span"]))
     ctx.extra["sort_call"] = sd["term"]["resolved_full"]
 
@@ -126,7 +250,25 @@ def r2(ctx):
     if re.search(r"sort(_unstable)?_by", callee):
         yield MISSING("C10-R2", "canonicalize_query_to_string/comparator", "sort uses a custom comparator/key (`%s`): idiom not recognised, review needed" % callee, where=b.span_of_block(s[0]))
         return
-    pushes = [(bi, t) for bi, t in b.calls(r"Vec::<T, A>::push$") if b.in_cycle(bi)]
+    info = acc_info(b)
+    if info["form"] == "collect":
+        probs, shp = collect_shape(b, info)
+        if probs:
+            yield MISSING("C10-R2", "canonicalize_query_to_string/collect-shape", "; ".join(probs), where=b.span_of_block(info["collect"][0]))
+            return
+        H, tst, name_caps = shp["tuple"]
+        if not ety.startswith("(") or tst is None or len(tst["rv"]["ops"]) != 2:
+            yield VIOL("C10-R2", "canonicalize_query_to_string/sort-key", "the sorted elements (%s) are not (name, value) tuples built by the inner map closure: a rendered `name=value` string sorts '=' (0x3D) above '-', '.', digits and '%%'" % ety, where=b.span_of_block(s[0]))
+            return
+        s0, s1 = H.slice_op(tst["rv"]["ops"][0]), H.slice_op(tst["rv"]["ops"][1])
+        env0 = {int(fs[0]) for l, fs in s0.fieldreads if l == 1 and fs}
+        env1 = {int(fs[0]) for l, fs in s1.fieldreads if l == 1 and fs}
+        if env0 and env0 <= name_caps and 2 not in s0.params and 2 in s1.params and not env1:
+            yield PASS("C10-R2", "canonicalize_query_to_string/sort-key", "elements are tuples (captured name, iterated value) of type %s sorted by natural order" % ety, [site(b, s[0], callee.split("::")[-1])])
+        else:
+            yield VIOL("C10-R2", "canonicalize_query_to_string/sort-key", "tuple elements are not (name, value) in that order", where=loc(H.j["span"]))
+        return
+    pushes = info["pushes"]
     p = one(pushes, "push into the accumulator")
     od = b.origin_def(p[1]["args"][1])
     if ety.startswith("(") and od and od[0] == "def" and od[1]["kind"] == "assign" and od[1]["stmt"]["rv"].get("tuple"):
@@ -152,7 +294,38 @@ def r2(ctx):
 @M.rule("C10-R3", "only the X-Amz-Signature parameter is excluded")
 def r3(ctx):
     b = ctx.fn(CQS)
-    pushes = [(bi, t) for bi, t in b.calls(r"Vec::<T, A>::push$") if b.in_cycle(bi)]
+    info = acc_info(b)
+    if info["form"] == "collect":
+        ctx.count()
+        probs, shp = collect_shape(b, info)
+        if probs:
+            yield MISSING("C10-R3", "canonicalize_query_to_string/collect-shape", "; ".join(probs), where=b.span_of_block(info["collect"][0]))
+            return
+        okf = len(shp["filters"]) == 1
+        if okf:
+            blk, F, pos = shp["filters"][0]
+            od = F.origin_def({"move": {"local": 0, "proj": []}})
+            neg = False
+            if od and od[0] == "def" and od[1]["kind"] == "assign" and od[1]["stmt"]["rv"]["k"] == "unop" and od[1]["stmt"]["rv"].get("op") == "Not":
+                neg = True
+                od = F.origin_def(od[1]["stmt"]["rv"]["x"])
+            okf = bool(od and od[0] == "def" and od[1]["kind"] == "call" and re.search(r"PartialEq::(ne|eq)$", od[1]["term"]["callee"]))
+            if okf:
+                t = od[1]["term"]
+                sa, sb = F.slice_op(t["args"][0]), F.slice_op(t["args"][1])
+                vals = sa.const_values() + sb.const_values()
+                keeps_unequal = t["callee"].endswith("::ne") != neg
+                # the compared item part is the name: field 0 of the entry / pair
+                name_side = {fs[:1] for l, fs in (sa.fieldreads | sb.fieldreads) if l == 2} == {("0",)}
+                okf = "X-Amz-Signature" in vals and keeps_unequal and name_side and len(F.live_blocks()) <= 4
+        if not okf:
+            yield VIOL("C10-R3", "canonicalize_query_to_string/filter", "the pipeline is filtered by %d condition(s) other than exactly `name != \"X-Amz-Signature\"`" % len(shp["filters"]), where=b.span_of_block(info["collect"][0]))
+        else:
+            yield PASS("C10-R3", "canonicalize_query_to_string/filter", "single filter stage: name != \"X-Amz-Signature\" (full equality)", [loc(shp["filters"][0][1].j["span"])])
+        # every value of a name is listed: the inner pipeline is exactly values.iter().map(..) (collect_shape) 
+        yield PASS("C10-R3", "canonicalize_query_to_string/all-values", "flat_map(values.iter().map(..)) with no inner filter: duplicates are kept", [])
+        return
+    pushes = info["pushes"]
     p = one(pushes, "push into the accumulator")
     conds = []
     for a, s, c, truth in guard_conditions(b, p[0]):
